@@ -898,6 +898,31 @@ func (g *gen05) defects(tier string) {
 			g.addSpec(kind, map[string]interface{}{"defect": "annotations size", "place": placeName(place), "total bytes": 262144 + over}, s, true)
 		}
 	}
+	// the limit counts bytes: values of 2-, 3- and 4-byte characters, one byte over the limit and exactly at it (far
+	// fewer characters than the limit in both)
+	for ci, ch := range []string{"\u00e9", "\u20ac", "\U0001F600"} {
+		for _, over := range []int{1, 0} {
+			if tier != "thorough" && over == 0 && ci != int(g.r.Intn(3)) {
+				continue
+			}
+			place := hx.Pick(g.r, places)
+			s := g.compact("env", 1)
+			used := len("multi")
+			n := (262144 + over - used) / len(ch)
+			pad := 262144 + over - used - n*len(ch)
+			m := map[string]string{"multi": strings.Repeat("x", pad) + strings.Repeat(ch, n)}
+			if place < 0 {
+				s.Annotations = m
+			} else {
+				s.Devices[place].Annotations = m
+			}
+			kind := "defect/oversize annotations (multi-byte characters)"
+			if over == 0 {
+				kind = "wf/annotations exactly at the size limit (multi-byte characters)"
+			}
+			g.addSpec(kind, map[string]interface{}{"defect": "annotations size", "place": placeName(place), "total bytes": 262144 + over, "characters": n + pad + used, "bytes per character": len(ch)}, s, true)
+		}
+	}
 }
 
 // ------------------------------------------------------------------------------------------------
